@@ -259,8 +259,10 @@ func SliceElemPtr(s, i Term) Term { return ElemPtr(SBase(s), Add(SOff(s), i)) }
 // SliceElemPtrT addresses element i of a slice whose elements are structs: the index goes through
 // the uninterpreted eidx(off,i) (= off+i by a prelude axiom) so that quantified contracts over such
 // slices get a reliable E-matching trigger instead of an arithmetic term.
+var eidxEverywhere = true
+
 func SliceElemPtrT(s, i Term, structElem bool) Term {
-	if !structElem {
+	if !structElem && !eidxEverywhere {
 		return SliceElemPtr(s, i)
 	}
 	return ElemPtr(SBase(s), App(SInt, "eidx", SOff(s), i))
